@@ -1392,6 +1392,32 @@ def stack(xs, dim=0, axis=None, cls=None):
     return xs[0]._mk(r, xs, bw)
 
 
+def gather(x, dim, index):
+    """torch.gather: out[i][j][k] = x[index[i][j][k]][j][k] (dim 0) etc.; a symbolic index is an If-chain over the axis"""
+    xa, ia = x.a, (index.a if isinstance(index, Arr) else _obj(index))
+    dim = dim % xa.ndim
+    out = np.empty(ia.shape, dtype=object)
+    n = xa.shape[dim]
+    for cell in np.ndindex(*ia.shape):
+        t = ia[cell]
+        src = list(cell)
+        if isinstance(t, Sym):
+            if not bool(s_and(t >= 0, t < n)):
+                raise RuntimeError("index out of bounds in gather")
+            v = None
+            for k in range(n - 1, -1, -1):
+                src[dim] = k
+                v = xa[tuple(src)] if v is None else ite(t == k, xa[tuple(src)], v)
+            out[cell] = v
+        else:
+            if not (0 <= int(t) < n):
+                raise RuntimeError("index %d is out of bounds for dimension %d with size %d" % (int(t), dim, n))
+            src[dim] = int(t)
+            out[cell] = xa[tuple(src)]
+    x._nograd("gather")
+    return type(x)(out, dtype=x.dtype)
+
+
 def where(c, a=None, b=None, cls=Tensor):
     if a is None:
         ca = c.a if isinstance(c, Arr) else _obj(c)
